@@ -6,7 +6,7 @@ import ArvVerif.Props.C10
 import ArvVerif.Proofs.C10_Normalize
 import ArvVerif.Proofs.C10_Termination
 import ArvVerif.Proofs.C10_SizedDigests
-import ArvVerif.Proofs.C10_Decimal
+import ArvVerif.Proofs.C10_Reparse4
 namespace ArvVerif.C10
 
 /-- **C10_resolve_bytes.** `resolve` is the document's semantics: for block contents `blk` of the
@@ -171,5 +171,34 @@ theorem C10_rendered_file_parses (tbl : List (Bytes × Nat)) (fn : Bytes) (segs 
 
 example : pkgFileTok (fileTokText 12 345 (pkgEscape [97, 32, 58, 92])) = some ⟨12, 345, [97, 32, 58, 92]⟩ :=
   C10_rendered_token_parses 12 345 _ (by decide) (by decide)
+
+/-! ## Extract end to end: the output text parses back -/
+
+/-- **C10_extract_reparses.** Text level, end to end: if `segment()` of the input succeeds and every
+stream `Extract(srcpath, relocate)` selects satisfies `RenderOk` — its relocated name is `.` or starts
+with `./`, every relocated path is canonical (this is the explicit hypothesis on `relocate`), its
+segments are what `segment()` produces (`SegOk`), contents/sizes are a function of the digest, and the
+normalized stream is shorter than 2^64 bytes — then `Extract` returns a text that the package parses
+again without error, stream by stream into exactly the streams it rendered (`normStream`: blocks of
+pass 1, spans of pass 2), and `segment()` of that text resolves every path over these streams. -/
+theorem C10_extract_reparses (blk : Bytes → Bytes) (txt srcpath relocate : Bytes) (m : SegMap)
+    (hm : pkgSegment txt = .ok m) (hok : ∀ o ∈ extractS m srcpath relocate, RenderOk blk o.1 o.2) :
+    ∃ out m', pkgExtract txt srcpath relocate = .ok out ∧
+      pkgStreams out = (extractS m srcpath relocate).map (fun o => toPStream (normStream o.1 o.2)) ∧
+      pkgSegment out = .ok m' ∧
+      ∀ a b : Bytes, segLookup m' (splitPath (pathOf a b)) =
+        resolve ((extractS m srcpath relocate).map fun o => normStream o.1 o.2) (pathOf a b) := by
+  rcases C10_extract_text txt srcpath relocate with ⟨m0, h0, hext⟩ | ⟨h0, _⟩
+  · rw [hm] at h0; cases h0
+    have hstreams := pkgStreams_rendered blk (extractS m srcpath relocate) hok
+    have hparsed : pkgParsed (renderOuts (extractS m srcpath relocate)) =
+        (extractS m srcpath relocate).map fun o => normStream o.1 o.2 := by
+      unfold pkgParsed; rw [hstreams, List.map_map]; rfl
+    rcases (C10_pkg_total (renderOuts (extractS m srcpath relocate))).2 with ⟨_, ps, hps, herr⟩ | ⟨m', h1, _, h3⟩
+    · rw [hstreams] at hps
+      obtain ⟨o, _, rfl⟩ := List.mem_map.mp hps
+      cases herr
+    · exact ⟨_, m', hext, hstreams, h1, fun a b => by rw [h3 a b, hparsed]⟩
+  · rw [hm] at h0; cases h0
 
 end ArvVerif.C10
